@@ -10,6 +10,8 @@
 (*          axis k (m any integer: also outside the box)                   *)
 (*   types  species ids 1..K                                               *)
 (*   frames sequence of frames, a frame = sequence of integer vectors m_i  *)
+(*   tys    (optional) species labels per frame (labels move between       *)
+(*          particles at constant composition)                             *)
 (*                                                                         *)
 (* For the integer wave vector n, q = 2 pi n / L and q.r_i = 2 pi (n.m_i)/M*)
 (* so exp(-i q.r_i) = zeta^(-n.m_i) with zeta = exp(2 pi i / M): a density *)
@@ -29,6 +31,11 @@ NFrames(c)  == Len(c.frames)
 Species(c)  == Range(c.types)
 NSpecies(c) == Cardinality(Species(c))
 CountOf(c, a) == Cardinality({i \in 1..NPart(c) : c.types[i] = a})
+TypesAt(c, f) == IF "tys" \in DOMAIN c THEN c.tys[f] ELSE c.types
+PerFrameOK(c) ==
+  "tys" \in DOMAIN c => /\ Len(c.tys) = NFrames(c)
+                         /\ \A f \in 1..NFrames(c) : \A a \in Species(c) :
+                               Cardinality({i \in 1..NPart(c) : c.tys[f][i] = a}) = CountOf(c, a)
 
 (***************************************************************************)
 (* Wave vectors.                                                           *)
@@ -77,7 +84,7 @@ PhaseClass(c, v, m) == (0 - Dot(v, m)) % c.M
 \* c_a[k], k = 0..M-1 stored at index k+1; a = 0 means all particles
 Counts(c, f, v, a) ==
   LET cls == [i \in 1..NPart(c) |-> PhaseClass(c, v, c.frames[f][i])]
-  IN  [k \in 1..c.M |-> Cardinality({i \in 1..NPart(c) : cls[i] = k - 1 /\ (a = 0 \/ c.types[i] = a)})]
+  IN  [k \in 1..c.M |-> Cardinality({i \in 1..NPart(c) : cls[i] = k - 1 /\ (a = 0 \/ TypesAt(c, f)[i] = a)})]
 Corr(M, ca, cb) == TLCEval([dl \in 1..M |-> SumSeq([k \in 1..M |-> ca[k] * cb[((k - 1 - (dl - 1)) % M) + 1]])])
 VAddSeq(u, v) == TLCEval([k \in 1..Len(u) |-> u[k] + v[k]])
 RECURSIVE SumVecs(_, _)
@@ -164,6 +171,7 @@ Case(c) ==
       cols == ColSeq(NSpecies(c))
       gs   == Groups(c, vecs)
   IN  [ m |-> "DensityModes", L |-> c.L, S |-> c.S, M |-> c.M, types |-> c.types, frames |-> c.frames, sel |-> c.sel,
+        tys |-> [f \in 1..NFrames(c) |-> TypesAt(c, f)],
         decided |-> (c.sel.kind = "list" \/ NumOfQDecided(c, c.sel.qn, c.sel.qd)),
         vecs |-> vecs,
         cols |-> [q \in 1..Len(cols) |-> ColName(cols[q])],
